@@ -1302,6 +1302,13 @@ func (w *World) sureEmits(in ssa.Instruction, b byte, depth int) bool {
 				if s, isC := constString(v); isC && has(s) {
 					return true
 				}
+				if isStringType(v.Type()) { // a concatenation: any literal segment of it
+					for _, p := range w.evalStr(v, senv{}, 0).parts {
+						if p.Leaf == nil && has(p.Lit) {
+							return true
+						}
+					}
+				}
 				if k, isK := constInt(v); isK && byte(k) == b {
 					if bt, ok := v.Type().Underlying().(*types.Basic); ok && bt.Kind() == types.Uint8 {
 						return true
@@ -1623,6 +1630,23 @@ func c14OrderedLists(c *Ctx) {
 						isRangeIdx := false
 						for _, rl := range rangeLoops(pf) {
 							if ia.Index == rl.Idx {
+								isRangeIdx = true
+							}
+						}
+						// the one element of a list known to hold exactly one (a fast path around the loop)
+						if k, isK := constInt(ia.Index); isK && k == 0 && !isRangeIdx {
+							single := func(a Atom) bool {
+								if a.Kind != "eqk" || a.K != 1 {
+									return false
+								}
+								l, isLen := lenOf(a.X)
+								if !isLen {
+									return false
+								}
+								_, same := isLoadOf(l, ref)
+								return same
+							}
+							if w.requires(pf, ia, single, true) {
 								isRangeIdx = true
 							}
 						}
